@@ -4,7 +4,7 @@ import json, os, subprocess, sys, tempfile, xml.etree.ElementTree as ET
 repo = sys.argv[1] if len(sys.argv) > 1 else '/repo'
 b = json.load(open('/root/.vp/BASELINE.json'))
 out = tempfile.mktemp(suffix='.xml')
-env = dict(os.environ); env.pop('PEDAL_EDU_PEDAL_VERIF', None)
+env = dict(os.environ); env.pop('PEDAL_EDU_PEDAL_VERIF', None); env['PYTHONPATH'] = repo
 subprocess.run(['/venv/bin/python', '-m', 'pytest', '-ra', '-q', '-p', 'no:cacheprovider', '--timeout=900',
                 '--continue-on-collection-errors', '--junitxml=' + out], cwd=repo, env=env,
                stdout=subprocess.DEVNULL, stderr=subprocess.DEVNULL)
